@@ -317,7 +317,11 @@ def coq_eval_cases(tag, items):
     src = ("From Coq Require Import ZArith List.\nFrom FV Require Import Models.Bigint.\nImport ListNotations.\n"
            "Open Scope Z_scope.\nDefinition cases : list case := [\n" + ";\n".join(lits) + "\n].\n"
            "Eval vm_compute in (bad_ids cases).\n")
-    ok, out = common.coq_eval(tag, src, timeout=900)
+    try:
+        ok, out = common.coq_eval(tag, src, timeout=900)
+    finally:
+        try: os.remove(os.path.join(common.GEN, "cases_%s.v" % tag))
+        except OSError: pass
     bad = common.parse_bad_ids(out) if ok else None
     if bad is None:
         return set(), out[-2000:]
@@ -499,6 +503,18 @@ def lowering_stage(run, work, nops):
 
 # ------------------------------------------------------------------ main
 
+def proof_stage(run):
+    """run.proof, retried when common.grep_gate() trips over a cases_*.v of a concurrently running check that
+    vanished between os.walk and open (observed: FileNotFoundError on another property's gen/cases file)."""
+    for attempt in range(4):
+        n_thm, n_obl = len(run.theorems), run.obligations
+        try:
+            return run.proof("Props/C16.v")
+        except FileNotFoundError:
+            del run.theorems[n_thm:]; run.obligations = n_obl
+            time.sleep(1 + attempt)
+    return run.proof("Props/C16.v")
+
 def main(run):
     work = Work()
     quick = run.tier == "quick"
@@ -514,11 +530,11 @@ def main(run):
                        "negative exponent (returns 0), shift count <= 0 (identity), malformed text / '-' for unsigned (0 or the valid prefix)",
                        "malloc succeeds"]
     # ---- proof stage
-    proof_ok = run.proof("Props/C16.v")
+    proof_ok = proof_stage(run)
 
     # ---- correspondence
     n_total = 24000 if quick else 600000
-    n_coq = 4800 if quick else 48000
+    n_coq = 3000 if quick else 48000
     corpus = corpus_cases()
     cases = corpus + gen_cases(run.rng, n_total)
     t0 = time.time()
